@@ -29,6 +29,7 @@ def check(ctx):
     c03.destination_agreement(ctx, P, views, iters)
     baulk(ctx, P, iters)
     c02.rearm(ctx, P, iters)
+    jockey_default(ctx, P)
     ctx.assume("baulking functions return a probability in [0, 1]; distributions return non-negative patience")
 
 
@@ -146,6 +147,30 @@ def renege_scan(ctx, P):
         vals = sorted(set(unparse(x.value) for x in ast.walk(fn) if isinstance(x, ast.Assign) and unparse(x.targets[0]) == rname))
         if vals not in (["random_choice(self.next_individual)", "self.next_individual[0]"], ["random_choice(self.next_individual)", "self.next_individual[-1]"]):
             ctx.violation(ob, "R6.argmin", "%s.decide_between_simultaneous_individuals" % cls.name, str(vals), "subject-not-selected", "must pick one of self.next_individual", loc(fn))
+
+
+def jockey_default(ctx, P):
+    """unless a router overrides it, a reneging customer leaves the system: the base routers' next_node_for_jockeying returns the exit node"""
+    ob = ctx.ob("JOCK", "default jockeying destination: NodeRouting / ProcessBased next_node_for_jockeying return the exit node simulation.nodes[-1]")
+    n = 0
+    for cname in ("NodeRouting", "ProcessBased"):
+        ci = P.classes.get(cname)
+        if ci is None or "next_node_for_jockeying" not in ci.methods:
+            ctx.unrecognised("JOCK: %s.next_node_for_jockeying not found" % cname)
+            continue
+        fn = ci.methods["next_node_for_jockeying"]
+        w = Walker(P, P.view(cname), keep=lambda e: e.kind == "return", inline=rules.new_helper)
+        for st in w.paths_of(ci, fn):
+            if st.status != "return":
+                continue
+            n += 1
+            rv = [e for e in st.events if e.kind == "return" and e.frame.depth == 0][-1]
+            val = (rv.d.get("value") or "").replace(" ", "")
+            ob.ok("%s.next_node_for_jockeying" % cname, "%s.next_node_for_jockeying returns %s" % (cname, val))
+            if val != "self.simulation.nodes[-1]":
+                ctx.violation(ob, "R8.destination", "%s.next_node_for_jockeying" % cname, "return %s" % val, "jockey-default-not-exit",
+                              "a reneging customer whose router defines no jockeying goes to the exit node (simulation.nodes[-1]); here it is sent to `%s`" % val, rv.where)
+    ctx.floor("default jockeying returns", n, 2)
 
 
 def baulk(ctx, P, iters):
